@@ -48,6 +48,16 @@ type CircuitBreaker struct {
 	lastFailureTime time.Time
 	lastSuccessTime time.Time
 	nextAttempt     time.Time
+
+	// State changes recorded under the mutex and reported to onStateChange
+	// after it has been released (the callback may call back into the breaker)
+	pendingChanges []stateChange
+}
+
+// stateChange is a state transition waiting to be reported to onStateChange
+type stateChange struct {
+	from State
+	to   State
 }
 
 var (
@@ -157,8 +167,17 @@ func (cb *CircuitBreaker) beforeRequest() error {
 	// single critical section, so that concurrent callers can never be
 	// admitted beyond maxRequests.
 	cb.mutex.Lock()
-	defer cb.mutex.Unlock()
+	err := cb.admitTrial(now)
+	changes := cb.takePendingChanges()
+	cb.mutex.Unlock()
 
+	cb.notifyStateChanges(changes)
+	return err
+}
+
+// admitTrial decides whether a request arriving while the breaker is not closed
+// may proceed (must be called with the write lock held)
+func (cb *CircuitBreaker) admitTrial(now time.Time) error {
 	switch cb.state {
 	case StateClosed:
 		// Closed by a concurrent request in the meantime
@@ -183,8 +202,15 @@ func (cb *CircuitBreaker) beforeRequest() error {
 // afterRequest updates the circuit breaker state after a request
 func (cb *CircuitBreaker) afterRequest(success bool) {
 	cb.mutex.Lock()
-	defer cb.mutex.Unlock()
+	cb.recordResult(success)
+	changes := cb.takePendingChanges()
+	cb.mutex.Unlock()
 
+	cb.notifyStateChanges(changes)
+}
+
+// recordResult applies the outcome of a request (must be called with the write lock held)
+func (cb *CircuitBreaker) recordResult(success bool) {
 	now := time.Now()
 
 	if success {
@@ -216,7 +242,8 @@ func (cb *CircuitBreaker) afterRequest(success bool) {
 	}
 }
 
-// setState changes the circuit breaker state and calls the callback
+// setState changes the circuit breaker state and queues the callback notification
+// (must be called with the write lock held)
 func (cb *CircuitBreaker) setState(state State) {
 	if cb.state == state {
 		return
@@ -226,7 +253,23 @@ func (cb *CircuitBreaker) setState(state State) {
 	cb.state = state
 
 	if cb.onStateChange != nil {
-		cb.onStateChange(cb.name, prev, state)
+		cb.pendingChanges = append(cb.pendingChanges, stateChange{from: prev, to: state})
+	}
+}
+
+// takePendingChanges returns the queued state changes (must be called with the write lock held)
+func (cb *CircuitBreaker) takePendingChanges() []stateChange {
+	changes := cb.pendingChanges
+	cb.pendingChanges = nil
+	return changes
+}
+
+// notifyStateChanges calls the callback for each state change. It must be called
+// without holding the mutex: the callback is allowed to use the circuit breaker
+// (e.g. Counts), which would otherwise deadlock.
+func (cb *CircuitBreaker) notifyStateChanges(changes []stateChange) {
+	for _, c := range changes {
+		cb.onStateChange(cb.name, c.from, c.to)
 	}
 }
 
